@@ -6,7 +6,7 @@ PROPS = {
         proof_targets=["Props/C28.vo"],
         theorems=[("C28", "C28_single_calls"), ("C28", "C28_parse_then_emit"), ("C28", "C28_model_is_slot_spec"),
                   ("C28", "C28_one_slot_touched"), ("C28", "C28_edits_preserve_names_and_order"),
-                  ("C28", "C28_model_meets_spec"), ("C28", "C28_checker_sound"), ("C28", "C28_refuted_by_D09")],
+                  ("C28", "C28_model_meets_spec"), ("C28", "C28_checker_sound"), ("C28", "C28_former_D09_witness_holds")],
         quick=dict(n=3000), thorough=dict(n=60000), per_shard=500,
         rule="random module (random subset of type/import/function/table/memory/global/export/start/element/datacount/code/data "
              "sections) with 0-5 custom sections at random positions among them: plain ones named from a pool of 19 names (empty, "
@@ -17,7 +17,7 @@ PROPS = {
              "(+ is_empty, iter) with valid, just-out-of-range and u32::MAX ids; non-trivial = at least one non-name custom section "
              "or one call; distinct by hash of the case term",
         level_text="Proof (Coq, all section layouts and all edit sequences, no size bound): add = append, delete = remove at index, "
-                   "modify = replace data, emission = vector order; parse-then-emit = the non-name custom sections in file order (outside D09); "
+                   "modify = replace data, emission = vector order; parse-then-emit = the non-name custom sections in file order (wherever the name section stands, whatever a producers section contains: D09 is repaired); "
                    "for every edit sequence the model equals an independent slot specification (sections never move; ids count live slots), "
                    "each id-directed call touches at most the designated slot, names and order of existing sections never change, data only "
                    "under modify, liveness only under delete, additions come last. The model is tied to /repo's working tree by differential "
